@@ -17,6 +17,7 @@ import (
 	"fmt"
 	"os"
 	"reflect"
+	"regexp"
 	"runtime"
 	"strings"
 	"sync"
@@ -361,8 +362,11 @@ var (
 	badKinds = []string{"badraw", "badtable", "badexec", "badcol"}
 	// statements that are prepared like their valid twins (identical text) and fail when executed:
 	// the table's CHECK constraint refuses the value
-	badvalUses = []string{"update", "updates", "exec", "updcol", "save", "create"}
-	loopN      = 25 // "loop": the same single-row UPDATE text this many times
+	// calls that fail because of their arguments, made directly on the handle the goroutine was given
+	// (at top level: the shared handle itself): the error belongs to the call, never to the handle
+	badchainUses = []string{"select-arg", "preload-unknown", "joins-unknown", "association-unknown", "dest-unsupported", "model-unsupported", "updates-no-model", "scope-error"}
+	badvalUses   = []string{"update", "updates", "exec", "updcol", "save", "create"}
+	loopN        = 25 // "loop": the same single-row UPDATE text this many times
 	// column names as arguments (Select, Omit, Updates map keys, Where map keys, Pluck) in varied
 	// spellings: database name, field name, lowerCamel, UPPER_SNAKE, Title_Snake
 	spellKinds = []string{"spell", "spell", "spell"}
@@ -428,7 +432,7 @@ func genOp(t *rapid.T, pal palette, depth int) Op {
 	kinds = append(kinds, badKinds...)
 	kinds = append(kinds, spellKinds...)
 	kinds = append(kinds, moreKinds...)
-	kinds = append(kinds, "badval", "badval")
+	kinds = append(kinds, "badval", "badval", "badchain", "badchain", "badchain")
 	if pal.f1 || pal.f2 {
 		kinds = append(kinds, relKinds...)
 		kinds = append(kinds, "delassoc")
@@ -477,6 +481,9 @@ func fillOp(t *rapid.T, o *Op, pal palette) {
 		o.M = rapid.SampledFrom(pal.models()).Draw(t, "model")
 		o.B = rapid.IntRange(0, len(spellUses)-1).Draw(t, "use")
 		o.V = rapid.IntRange(0, 99).Draw(t, "columnAndSpelling")
+	case "badchain":
+		o.M = rapid.SampledFrom(pal.models()).Draw(t, "model")
+		o.B = rapid.IntRange(0, len(badchainUses)-1).Draw(t, "use")
 	case "badval":
 		o.M = rapid.SampledFrom(pal.models()).Draw(t, "model")
 		o.B = rapid.IntRange(0, len(badvalUses)-1).Draw(t, "use")
@@ -1200,6 +1207,31 @@ func exec(db *gorm.DB, g int, o Op) string {
 	case "delrange":
 		r := inRange(db, o.M, g).Where(modelTables[o.M]+".id >= ?", keyOf(g, o.A)).Delete(newModel(o.M))
 		return fmt.Sprintf("%s ra=%d", errText(r.Error), r.RowsAffected)
+	case "badchain":
+		out := newSlice(o.M)
+		col := firstColumn(o.M)
+		var r *gorm.DB
+		switch badchainUses[o.B] {
+		case "select-arg":
+			r = inRange(db.Select(42), o.M, g).Find(out)
+		case "preload-unknown":
+			r = inRange(db, o.M, g).Preload("Nope").Find(out)
+		case "joins-unknown":
+			r = inRange(db, o.M, g).Joins("Nope").Find(out)
+		case "association-unknown":
+			err := db.Model(build(o.M, g, o.A, 0, 0)).Association("Nope").Find(out)
+			return fmt.Sprintf("%s via badchain+%s", errText(err), badchainUses[o.B])
+		case "dest-unsupported":
+			var n int
+			r = db.First(&n)
+		case "model-unsupported":
+			r = db.Model(42).Where("id = ?", keyOf(g, o.A)).Update(col, changes(o.M, o.V)[col])
+		case "updates-no-model":
+			r = db.Where("id = ?", keyOf(g, o.A)).Updates(changes(o.M, o.V))
+		default: // scope-error
+			r = db.Scopes(func(tx *gorm.DB) *gorm.DB { _ = tx.AddError(errors.New("c07: scope refuses")); return tx }).Find(out)
+		}
+		return fmt.Sprintf("%s ra=%d %s via badchain+%s", hexAddr.ReplaceAllString(errText(r.Error), "0x?"), r.RowsAffected, render(out), badchainUses[o.B])
 	case "badval":
 		col := firstColumn(o.M)
 		bad := forbidden(o.M)
@@ -1856,9 +1888,10 @@ func dump(db *sql.DB) []string {
 }
 
 type outcome struct {
-	results [][]string // per goroutine, per operation
-	rows    []string   // final rows of every table
-	stalled string     // non-empty: no operation finished for stallLimit; holds the goroutine stacks
+	results   [][]string // per goroutine, per operation
+	rows      []string   // final rows of every table
+	handleErr string     // non-empty: a shared handle carries an error after the run
+	stalled   string     // non-empty: no operation finished for stallLimit; holds the goroutine stacks
 }
 
 func runProgram(c *Case, db *gorm.DB, g int, prog []Op, res []string) {
@@ -1950,8 +1983,26 @@ func runConcurrent(c *Case) outcome {
 			return out
 		}
 	}
+	out.handleErr = handleErrors(d)
 	out.rows = dump(d.mem.SQL)
 	return out
+}
+
+// handleErrors: the shared handles carry no error after the run - an operation's error belongs to
+// the value the operation returned. (An error left on a shared handle fails every later call of
+// every goroutine, and equally in the serial run, where the comparison alone would not show it.)
+func handleErrors(d *caseDB) string {
+	var bad []string
+	if d.DB.Error != nil {
+		bad = append(bad, fmt.Sprintf("the opened handle carries %q", d.DB.Error))
+	}
+	if d.shared != d.DB && d.shared.Error != nil {
+		bad = append(bad, fmt.Sprintf("the shared handle carries %q", d.shared.Error))
+	}
+	if carrying.h != nil && carrying.h.Error != nil {
+		bad = append(bad, fmt.Sprintf("the clause-carrying handle carries %q", carrying.h.Error))
+	}
+	return strings.Join(bad, "; ")
 }
 
 // supervise waits until done is closed. A phase in which no operation finishes for stallLimit is a
@@ -2094,6 +2145,7 @@ func runSerial(c *Case) outcome {
 	if out.stalled = supervise(c, "serial run", done, func() { _ = d.mem.SQL.Close() }); out.stalled != "" {
 		return out
 	}
+	out.handleErr = handleErrors(d)
 	out.rows = dump(d.mem.SQL)
 	return out
 }
@@ -2170,6 +2222,9 @@ func check(c *Case) string {
 	evid.AddExtra("operations_run_per_side", int64(total))
 	evid.AddExtra("operations_with_an_error_result_alone", int64(errs))
 	var bad []string
+	if conc.handleErr != "" || ser.handleErr != "" {
+		bad = append(bad, fmt.Sprintf("an operation left its error on a handle the goroutines share (after the concurrent run: %s; after the serial run: %s): every later call through that handle fails with it", orNone(conc.handleErr), orNone(ser.handleErr)))
+	}
 	if races > 0 {
 		bad = append(bad, fmt.Sprintf("the race detector reported %d data race(s) while the goroutines of this case ran (reports: stderr, above)", races))
 	}
@@ -2177,6 +2232,16 @@ func check(c *Case) string {
 		bad = append(bad, "results differ from the same programs run one after the other:\n  "+d)
 	}
 	return strings.Join(bad, "\n")
+}
+
+// hexAddr: some error texts print the address of the value they refuse
+var hexAddr = regexp.MustCompile(`0x[0-9a-f]+`)
+
+func orNone(s string) string {
+	if s == "" {
+		return "none"
+	}
+	return s
 }
 
 // panicsOf lists the operations that ended in a (recovered) panic: a panic inside an operation
@@ -2350,7 +2415,7 @@ func runCase(rt *rapid.T) {
 }
 
 func TestC07(t *testing.T) {
-	evid.Rule("C07: G in 2..32 goroutines (four size buckets) released by one barrier, each running 1-8 operations through ONE shared *gorm.DB (the opened handle, or one derived from it before the barrier: Session{}, WithContext, Session{NewDB}, a conditioned handle; in two thirds of the cases also a second shared Session handle that already carries 0-3 Where conditions, 0-7 Order columns and possibly Select/Joins/Preload, from which goroutines derive chains that add one more Order/Where/Select/Omit/Limit/Clauses/Joins/Preload/Not-Or before finishing) on explicit keys private to the goroutine. Operations: Create (single, []T, []*T 2-6 rows, nested associations, maps, []map, CreateInBatches, OnConflict), Save, FirstOrInit/FirstOrCreate with struct Attrs / map Assign, Find (chain and inline conditions, struct conditions of the model's and of a foreign type, smaller destination struct, Scopes, Not/Or groups, Distinct/Limit/Offset, Group/Having into maps, sub-query built from the shared handle), First/Take/Last, FindInBatches, Count, Pluck, Row, Rows+ScanRows, Raw.Scan, Exec, ToSQL, Preload incl. nested, relation Joins, Update/Updates (map, struct)/UpdateColumn(s), clause.Returning on update and delete, Delete (key, range, Unscoped, Select(clause.Associations)), Set/Get/InstanceSet/InstanceGet, Migrator HasTable/HasColumn (also through Table()), Transaction blocks (nested, rollback), manual Begin/SavePoint/RollbackTo/Commit, Connection blocks, Association Append/Replace/Delete/Clear/Find/Count, statements that cannot be prepared (Raw/Table/Exec on a missing table, a missing column; three texts each, shared by all goroutines), statements that are refused when executed (every table has a CHECK constraint; Update/Updates/Exec/UpdateColumn/Save/Create with the refused value, same text as the valid calls), loops of 25 identical single-row UPDATEs, patch / condition maps and a struct filter that all goroutines share as arguments, column names in five spellings for Select/Omit/Updates(map)/Where(map)/Pluck; a quarter of the plain operations run on a per-call Session with SkipHooks/QueryFields/FullSaveAssociations/NewDB/Context/SkipDefaultTransaction/DryRun/CreateBatchSize/Debug. Models: a cyclic family of six related types (belongs-to, has-one, has-many, many-to-many), a second family (one target type with four has-many/has-one owner types), three mutually unrelated many-to-many families (on a cold handle first used by different goroutines at the barrier), two relation-free types with a json serializer field, a field type that is its own stateful serializer, a Valuer/Scanner type, an embedded struct, tracked times, soft delete and hook methods. In a third of the cases all goroutines start with the same statement: a text that cannot be prepared, a read of one model (overlapping scans), or one UPDATE text (shared patch map, loops, a quarter of the goroutines with the refused value). Schema cache cold / one type parsed / only the shared target type parsed and queried (owners first used concurrently) / all parsed / all queried before the barrier; PrepareStmt off / Config.PrepareStmt / db.Session(&gorm.Session{PrepareStmt: true}) derived per call or once per goroutine; Config switches QueryFields, CreateBatchSize, FullSaveAssociations, TranslateError, PropagateUnscoped, an Info-level Logger, a NameReplacer naming strategy, a dialector without RETURNING, a Plugin registering callbacks (with Match) in every processor; default transactions on/off; pool unbounded or 1/2/4; GOMAXPROCS 1/2/4/default; generated Gosched points. Judged by the race detector (report count read after every case), by equality of every result (error texts, recovered panics included) and of all final rows with a serial run on a fresh database, and by a deadlock watchdog. Non-trivial = part of the schema cache is cold at the barrier (G >= 2 always), or warm cache with >= 4 goroutines and >= 1 association/preload/joins/nested-create operation; distinct = configuration + programs")
+	evid.Rule("C07: G in 2..32 goroutines (four size buckets) released by one barrier, each running 1-8 operations through ONE shared *gorm.DB (the opened handle, or one derived from it before the barrier: Session{}, WithContext, Session{NewDB}, a conditioned handle; in two thirds of the cases also a second shared Session handle that already carries 0-3 Where conditions, 0-7 Order columns and possibly Select/Joins/Preload, from which goroutines derive chains that add one more Order/Where/Select/Omit/Limit/Clauses/Joins/Preload/Not-Or before finishing) on explicit keys private to the goroutine. Operations: Create (single, []T, []*T 2-6 rows, nested associations, maps, []map, CreateInBatches, OnConflict), Save, FirstOrInit/FirstOrCreate with struct Attrs / map Assign, Find (chain and inline conditions, struct conditions of the model's and of a foreign type, smaller destination struct, Scopes, Not/Or groups, Distinct/Limit/Offset, Group/Having into maps, sub-query built from the shared handle), First/Take/Last, FindInBatches, Count, Pluck, Row, Rows+ScanRows, Raw.Scan, Exec, ToSQL, Preload incl. nested, relation Joins, Update/Updates (map, struct)/UpdateColumn(s), clause.Returning on update and delete, Delete (key, range, Unscoped, Select(clause.Associations)), Set/Get/InstanceSet/InstanceGet, Migrator HasTable/HasColumn (also through Table()), Transaction blocks (nested, rollback), manual Begin/SavePoint/RollbackTo/Commit, Connection blocks, Association Append/Replace/Delete/Clear/Find/Count, statements that cannot be prepared (Raw/Table/Exec on a missing table, a missing column; three texts each, shared by all goroutines), calls that fail because of their arguments made directly on the shared handle (unsupported Select argument, unknown relation in Preload/Joins/Association, unsupported destination or Model value, Updates without a model, a Scope adding an error; no shared handle may carry an error afterwards), statements that are refused when executed (every table has a CHECK constraint; Update/Updates/Exec/UpdateColumn/Save/Create with the refused value, same text as the valid calls), loops of 25 identical single-row UPDATEs, patch / condition maps and a struct filter that all goroutines share as arguments, column names in five spellings for Select/Omit/Updates(map)/Where(map)/Pluck; a quarter of the plain operations run on a per-call Session with SkipHooks/QueryFields/FullSaveAssociations/NewDB/Context/SkipDefaultTransaction/DryRun/CreateBatchSize/Debug. Models: a cyclic family of six related types (belongs-to, has-one, has-many, many-to-many), a second family (one target type with four has-many/has-one owner types), three mutually unrelated many-to-many families (on a cold handle first used by different goroutines at the barrier), two relation-free types with a json serializer field, a field type that is its own stateful serializer, a Valuer/Scanner type, an embedded struct, tracked times, soft delete and hook methods. In a third of the cases all goroutines start with the same statement: a text that cannot be prepared, a read of one model (overlapping scans), or one UPDATE text (shared patch map, loops, a quarter of the goroutines with the refused value). Schema cache cold / one type parsed / only the shared target type parsed and queried (owners first used concurrently) / all parsed / all queried before the barrier; PrepareStmt off / Config.PrepareStmt / db.Session(&gorm.Session{PrepareStmt: true}) derived per call or once per goroutine; Config switches QueryFields, CreateBatchSize, FullSaveAssociations, TranslateError, PropagateUnscoped, an Info-level Logger, a NameReplacer naming strategy, a dialector without RETURNING, a Plugin registering callbacks (with Match) in every processor; default transactions on/off; pool unbounded or 1/2/4; GOMAXPROCS 1/2/4/default; generated Gosched points. Judged by the race detector (report count read after every case), by equality of every result (error texts, recovered panics included) and of all final rows with a serial run on a fresh database, and by a deadlock watchdog. Non-trivial = part of the schema cache is cold at the barrier (G >= 2 always), or warm cache with >= 4 goroutines and >= 1 association/preload/joins/nested-create operation; distinct = configuration + programs")
 	evid.Assume("SQLite's single-writer rule is hidden by the harness: connections run read_uncommitted and writers queue on one harness mutex (BEGIN..COMMIT or one autocommit write); write paths of two goroutines therefore overlap only outside transactions (SkipDefaultTransaction cases)")
 	evid.Assume("the runtime's schedule is sampled, not enumerated; the race detector reports unsynchronised conflicting accesses it observes within its history window")
 	if !raceEnabled {
